@@ -221,6 +221,54 @@ def make_unitary(family, n, seed):
         e = 1e-5
         blk = np.diag(np.exp(1j * e * np.array([1, -1, -1, 1])))
         return np.kron(np.eye(dim // 4), blk) if n >= 2 else np.eye(2, dtype=complex)
+    if family.startswith("block_near_equal@"):
+        # diag(A, A exp(i eps H)): the eigenvalues of U1 U2^dagger in _compute_gates form a cluster of width ~eps around 1, so the
+        # eigenvector matrix of np.linalg.eig sits next to the `is_unitary_matrix` test (atol 1e-8, rtol 1e-5) that selects the
+        # closest-unitary repair (unitary.py:211-214)
+        eps = float(family.split("@")[1])
+        if n == 1:
+            return np.diag(np.exp(1j * np.array([0.3, 0.3 + eps])))
+        a = haar(rng, dim // 2)
+        w = haar(rng, dim // 2)
+        h = rng.uniform(-1.0, 1.0, dim // 2)
+        z = np.zeros((dim, dim), dtype=complex)
+        z[: dim // 2, : dim // 2] = a
+        z[dim // 2:, dim // 2:] = a @ (w * np.exp(1j * eps * h)) @ w.conj().T
+        return z
+    if family.startswith("cs_tiny@"):
+        # cosine-sine angles (a, .., a, a + d t / 2): every non-constant combination of the multiplexed RY angles 2 theta is
+        # +-t, next to the `abs(angle) > 1e-8` test of the ucr leaf (ucr.py:48)
+        t = float(family.split("@")[1])
+        if n < 2:
+            return haar(rng, dim)
+        d = dim // 2
+        theta = np.full(d, 0.7)
+        theta[-1] += d * t / 2
+        z = np.zeros((dim, dim), dtype=complex)
+        z[:d, :d] = np.diag(np.cos(theta))
+        z[:d, d:] = -np.diag(np.sin(theta))
+        z[d:, :d] = np.diag(np.sin(theta))
+        z[d:, d:] = np.diag(np.cos(theta))
+        left = np.zeros((dim, dim), dtype=complex)
+        right = np.zeros((dim, dim), dtype=complex)
+        left[:d, :d], left[d:, d:] = haar(rng, d), haar(rng, d)
+        right[:d, :d], right[d:, d:] = haar(rng, d), haar(rng, d)
+        return left @ z @ right
+    if family.startswith("tiny_entry@"):
+        # Haar unitary with one entry of modulus e (a row rotation of a Haar matrix): QR is stated for unitaries without
+        # zero entries, its own tests are exact (`!= 0`)
+        e = float(family.split("@")[1])
+        u = haar(rng, dim)
+        i, k, j = 0, dim - 1, int(rng.integers(dim))
+        x, y = u[i, j], u[k, j]
+        rr = math.sqrt(abs(x) ** 2 + abs(y) ** 2)
+        beta = e / rr
+        alpha = math.sqrt(1 - beta ** 2)
+        c = (alpha * np.conj(y) + beta * np.conj(x)) / rr
+        sgm = (-alpha * np.conj(x) + beta * np.conj(y)) / rr
+        g = np.eye(dim, dtype=complex)
+        g[i, i], g[i, k], g[k, i], g[k, k] = c, sgm, -np.conj(sgm), np.conj(c)
+        return g @ u
     if family == "cnot_chain":
         perm = list(range(dim))
         for q in range(n - 1):
@@ -655,6 +703,34 @@ def oracle_jobs(ctx, nmax, qr_nmax, reps):
     return jobs
 
 
+def boundary_jobs(ctx):
+    """Inputs next to the float thresholds of the anchored sources (the size / option boundaries - n = 1, 2 without recursion, n = 3
+    first recursion, every iso in 0..n-1, csd leaf at 2x2 blocks, QR n = 1 - are AT and one off in oracle_jobs already)."""
+    jobs = []
+    for n in (2, 3, 4):
+        for eps in (1e-9, 1e-7, 1e-5, 1e-3):
+            seed = ctx.rng.getrandbits(32)
+            fam = f"block_near_equal@{eps:g}"
+            for iso in ((0,) if n < 3 else (0, 1)):
+                jobs.append(("unitary", n, fam, seed, "qsd", iso, True))
+                jobs.append(("unitary", n, fam, seed, "qsd", iso, False))
+                jobs.append(("unitary", n, fam, seed, "csd", iso, False))
+            ctx.count(f"boundary:demux-eigenvalue-cluster-width:{eps:g}")
+    for n in (3, 4):
+        for t in (3e-9, 3e-8, 1e-6):
+            seed = ctx.rng.getrandbits(32)
+            fam = f"cs_tiny@{t:g}"
+            jobs.append(("unitary", n, fam, seed, "qsd", 0, True))
+            jobs.append(("unitary", n, fam, seed, "qsd", 1, False))
+            jobs.append(("unitary", n, fam, seed, "csd", 0, False))
+            ctx.count(f"boundary:ucr-angle-vs-1e-8:{t:g}")
+    for n in (2, 3):
+        for e in (3e-6, 1e-4):
+            jobs.append(("unitary", n, f"tiny_entry@{e:g}", ctx.rng.getrandbits(32), "qr", 0, False))
+            ctx.count(f"boundary:qr-smallest-entry:{e:g}")
+    return jobs
+
+
 def probe_findings(ctx):
     """Concrete inputs of recorded findings, probed on every run (F-C02-1 fixed: one-qubit QR; the A.2 precision loss)."""
     jobs = [("unitary", 1, "haar", 11, "qr", 0, False), ("unitary", 1, "real_orthogonal", 12, "qr", 0, False),
@@ -789,11 +865,14 @@ def run(ctx):
     run_tie(ctx)
     probe_findings(ctx)
     probe_call_forms(ctx)
-    jobs = oracle_jobs(ctx, 5 if ctx.quick else 6, 4 if ctx.quick else 5, 2 if ctx.quick else 4)
+    jobs = oracle_jobs(ctx, 5 if ctx.quick else 6, 4 if ctx.quick else 5, 2 if ctx.quick else 4) + boundary_jobs(ctx)
     for job, res in zip(jobs, run_jobs(jobs)):
         judge(ctx, job, res)
     flush_deferred(ctx)
     ctx.notes.append("QR is exercised only on unitaries whose entries all exceed 1e-6 in modulus (the property's own restriction)")
+    ctx.notes.append("boundary families: block_near_equal@eps (eigenvalue cluster of width 1e-9..1e-3 in _compute_gates, either side of "
+                     "the is_unitary_matrix test that selects the closest-unitary repair), cs_tiny@t (multiplexed RY combinations of "
+                     "3e-9 / 3e-8 / 1e-6 around ucr's 1e-8 cut), tiny_entry@e (QR on a unitary whose smallest entry is 3e-6 / 1e-4)")
     ctx.notes.append("kernel specifications: cossin to 1e-8, eigen/demultiplexing to 1e-6, operator to 1e-7")
 
 
